@@ -104,7 +104,12 @@ pub fn check(tape: &[u32]) -> CheckResult {
         }
     }
     let plan = build_plan(&mut t);
-    let enc = encode(&s, &plan);
+    let mut enc = encode(&s, &plan);
+    // a quarter of the sprites carry non-zero values in the cels' reserved / z-index bytes (route agreement and
+    // single-visible-layer frames do not depend on the order in which cels are drawn)
+    if t.chance(1, 4) {
+        crate::encode::junk_zindex(&mut enc, &mut crate::encode::Rng(t.raw64()));
+    }
     let detail = || json!({"model": super::c01::summarize(&s), "input_hex": if enc.bytes.len() < 8000 { hex(&enc.bytes) } else { String::new() }});
     let f = AsepriteFile::read(&enc.bytes[..]).map_err(|e| Failure::new("load-error", format!("well-formed file failed to load: {}", e)).with(detail()))?;
     let (pairs, nontrivial) = check_file(&f).map_err(|e| e.with(detail()))?;
